@@ -82,6 +82,7 @@ type simCluster struct {
 	closedAt int // seq at which the client's Close returned (0 = not yet)
 	hold     map[string]chan struct{}
 	dialHold chan struct{}
+	zkHold   chan struct{} // LocateResource waits for it to be closed
 }
 
 func newSimCluster() *simCluster {
@@ -107,6 +108,12 @@ func (c *simCluster) LocateResource(res zk.ResourceName) (string, error) {
 		return "", errors.New("zk: connection loss")
 	}
 	c.mu.Lock()
+	zh := c.zkHold
+	c.mu.Unlock()
+	if zh != nil {
+		<-zh // a slow ZooKeeper: answers only when released
+	}
+	c.mu.Lock()
 	defer c.mu.Unlock()
 	if strings.HasSuffix(string(res), string(zk.Master)) {
 		return "master:1", nil
@@ -120,7 +127,8 @@ type simConn struct {
 	id       int
 	dials    int32
 	closed   int32
-	failed   int32 // delivered a connection-level error at least once (may be declared dead)
+	failed   int32 // the connection itself broke (dial failed, server down, closed under it)
+	deadOK   int32 // delivered a connection-level error or server-class exception: the client may declare it dead
 	bornSeq  int
 	closeSeq int
 	parked   []hrpc.Call // calls this connection is sitting on (silent server)
@@ -153,6 +161,7 @@ func (s *simConn) Dial(ctx context.Context) error {
 	}
 	if down || atomic.LoadInt32(&s.closed) != 0 {
 		atomic.StoreInt32(&s.failed, 1)
+		atomic.StoreInt32(&s.deadOK, 1)
 		return region.ErrClientClosed
 	}
 	return nil
@@ -217,6 +226,7 @@ func (s *simConn) serve(call hrpc.Call) {
 	}
 	if atomic.LoadInt32(&s.closed) != 0 || c.down[s.addr] {
 		atomic.StoreInt32(&s.failed, 1)
+		atomic.StoreInt32(&s.deadOK, 1)
 		finish("connErr")
 		deliver(nil, region.ErrClientClosed)
 		return
@@ -305,7 +315,8 @@ func (s *simConn) serve(call hrpc.Call) {
 		k := strings.TrimPrefix(reg.faults[0], "REQ:")
 		reg.faults = reg.faults[1:]
 		if k == "connErr" {
-			atomic.StoreInt32(&s.failed, 1)
+			// a server-class exception over a healthy connection: the connection stays open
+			atomic.StoreInt32(&s.deadOK, 1)
 		}
 		finish(k)
 		deliver(nil, excErr(k))
